@@ -7,11 +7,11 @@
 package chand
 
 import (
-	"io"
 	"bytes"
 	"context"
 	"encoding/json"
 	"fmt"
+	"io"
 	"math/rand"
 	"net"
 	"os"
@@ -375,7 +375,9 @@ func Run(c Case) int {
 		encSel = func(o []lime.SessionEncryption) lime.SessionEncryption { return lime.SessionEncryptionTLS }
 	}
 	ses, err := cc.EstablishSession(ctx, lime.NoneCompressionSelector, encSel, lime.Identity{Name: "cli", Domain: "example.com"},
-		func([]lime.AuthenticationScheme, lime.Authentication) lime.Authentication { return &lime.GuestAuthentication{} }, "i")
+		func([]lime.AuthenticationScheme, lime.Authentication) lime.Authentication {
+			return &lime.GuestAuthentication{}
+		}, "i")
 	if err != nil || ses.State != lime.SessionStateEstablished {
 		fmt.Fprintln(os.Stderr, "establish:", err)
 		return 2
